@@ -54,9 +54,14 @@ def run(chk, replay=None):
         "overload of spawn_future, a scheduler that posts the future's continuation to thread Fut)",
         "modelled not verified: the stop sources are at lock granularity (C03 owns their internals); the scope counter is C08's "
         "(only 'scope word back to 0' is monitored); v1-scope awaited futures are monitored, not tied",
+        "spawn faults: harness/k3_spawn_faults.cpp (cfg plain17, sequential; own sender with throwing copy/move/connect, wrapper scope with a "
+        "throwing nest, counting + poisoning allocator); SpawnFault is a hand-written sequential model compared per run",
         "model variant tied to the code: tools/units/future.py MODEL_VARIANT = %r" % future.VARIANT]
     chk.cov["rule"] = ("K1: all schedules of each program with <= bound preemptions (truncated at maxruns) plus seeded random ones; "
                        "distinct = distinct projected traces; non-trivial = at least two context switches among owned events")
     chk.cov["model_variant"] = future.VARIANT
     chk.prove()
     k1.run_unit(_Keyed(chk), future.SpawnFuture())
+    # faults during spawn (throwing allocation / nest / connect): sequential sweep, direct monitor
+    # in harness/k3_spawn_faults.cpp + comparison with the SpawnFault model
+    future.run_spawn_faults(chk)
